@@ -34,3 +34,6 @@ pub(crate) use page_store::{
 pub use page_store::{InMemoryBackend, Savepoint};
 pub(crate) use table_tree::{PageListMut, TableTree, TableTreeMut};
 pub(crate) use table_tree_base::{InternalTableDefinition, TableType};
+
+#[cfg(redb_verif)]
+pub(crate) use page_store::verif_export;
